@@ -31,6 +31,7 @@
 #include <map>
 #include <set>
 
+#include <stdexcept>
 #include "builtin.hh"
 #include "builtin-cst.hh"
 #include "op.hh"
@@ -97,10 +98,11 @@ vocabulary::vocabulary (vocabulary const &a, vocabulary const &b)
 	  // and each of them has a different set of specializations,
 	  // we can merge.
 	  auto ola = std::dynamic_pointer_cast <overloaded_builtin const> (ba);
-	  assert (ola != nullptr);
-
 	  auto olb = std::dynamic_pointer_cast <overloaded_builtin const> (bb);
-	  assert (olb != nullptr);
+	  if (ola == nullptr || olb == nullptr)
+	    throw std::runtime_error
+	      (std::string ("Can't merge vocabularies: both define `")
+	       + name + "'");
 
 	  auto ta = ola->get_overload_tab ();
 	  auto tb = olb->get_overload_tab ();
